@@ -15,7 +15,7 @@ CONSTANTS D_InterceptRaw,        \* F9: the intercept path is used as given, not
           D_FallbackBeforeHead,  \* deviation: '/*' is consulted before the HEAD->GET fallback
           D_AllowProbeHeadFallback  \* deviation: the probe for allowed methods applies the HEAD->GET fallback (Allow gains HEAD)
 
-VARIABLE opts    \* [hmna: BOOLEAN, hfb: BOOLEAN, icpt: raw token string or <<>>]
+VARIABLE opts    \* [hmna: BOOLEAN, hfb: BOOLEAN, icpt: raw token string or <<>>] and optionally strict: BOOLEAN (StrictLastSlash)
 rvars == <<ivars, opts>>
 
 Nine == <<"GET", "POST", "PUT", "PATCH", "DELETE", "OPTIONS", "HEAD", "CONNECT", "TRACE">>
@@ -31,8 +31,9 @@ RouteRes(r, via) == [kind |-> "route", r |-> r, via |-> via, allow |-> {}]
 AllowedOp(m, q) == { m2 \in NineSet \ {m} : \/ Lookup(m2, q) # 0
                                          \/ (D_AllowProbeHeadFallback /\ m2 = "HEAD" /\ Lookup("GET", q) # 0) }
 StarRoutes(m)   == { e \in stable : e.m = m /\ e.path = Star }
+StrictOpt       == IF "strict" \in DOMAIN opts THEN opts.strict ELSE FALSE
 EffQ(q, raw)    == IF opts.icpt = <<>> THEN q
-                   ELSE QOf(IF raw THEN opts.icpt ELSE Norm(FALSE, opts.icpt))
+                   ELSE QOf(IF raw THEN opts.icpt ELSE Norm(StrictOpt, opts.icpt))   \* whenever the option was given
 
 QuickMatch(m, q0) ==
   LET q    == EffQ(q0, D_InterceptRaw)
@@ -61,6 +62,11 @@ Resolve(m, q0) ==
 \* request paths probed: the normalised members of the universe
 ReqQs == { q \in 1..NPaths : NormalForm(PathSeq[q]) }
 ResolveAgree == \A m \in ReqMethods : \A q \in ReqQs : QuickMatch(m, q) = Resolve(m, q)
+\* with StrictLastSlash a trailing slash is significant: the strict normal forms are requested, each resolved as its
+\* normal form under the router's own mode
+ReqQsStrict == { q \in 1..NPaths : Norm(TRUE, PathSeq[q]) = PathSeq[q] }
+RQ(q)       == QOf(Norm(StrictOpt, PathSeq[q]))
+ResolveAgreeS == \A m \in ReqMethods : \A q \in ReqQsStrict : QuickMatch(m, RQ(q)) = Resolve(m, RQ(q))
 
 \* compact code of a resolution (used by the exports): one integer per (method, path) cell
 \*   0 notfound | r direct | 100+r via HEAD->GET | 200+r via fallback | 1000+bitmask(allowed methods in Nine order)
